@@ -286,12 +286,52 @@ func ruleLoadRepair(c *Ctx) {
 	storeKey := F(P.Method(plc, "Rule", "StoreKey"))
 	saveRule := F(P.Method("server/core", "Storage", "SaveRule"))
 	delRule := F(P.Method("server/core", "Storage", "DeleteRule"))
-	// the mismatch test lives in the load callback
-	found := false
-	for _, f := range append([]*ssa.Function{load}, load.AnonFuncs...) {
-		if hasComparison(f, "!=", func(v ssa.Value) bool { _, ok := v.(*ssa.Parameter); return ok }, resultOfCall(storeKey)) {
-			found = true
+	// the mismatch test lives in the load callback: it returns with the rule installed only if the key it was stored
+	// under is its canonical key, or after queueing the stale key for deletion and the rule for re-saving
+	rulesMap := P.Field(plc, "ruleConfig", "rules")
+	queuedOf := func(name string, elem func(types.Type) bool) *calledEv {
+		return &calledEv{name: name, match: func(x ssa.Instruction) bool {
+			st, ok := x.(*ssa.Store)
+			if !ok {
+				return false
+			}
+			if _, isFV := st.Addr.(*ssa.FreeVar); !isFV {
+				return false
+			}
+			sl, isSl := st.Val.Type().Underlying().(*types.Slice)
+			return isSl && elem(sl.Elem())
+		}}
+	}
+	isString := func(t types.Type) bool {
+		bt, isB := t.Underlying().(*types.Basic)
+		return isB && bt.Kind() == types.String
+	}
+	isRulePtr := func(t types.Type) bool {
+		pt, isP := t.(*types.Pointer)
+		if !isP {
+			return false
 		}
+		nn := namedOf(pt.Elem())
+		return nn != nil && nn.Obj().Name() == "Rule"
+	}
+	found := false
+	for _, f := range load.AnonFuncs {
+		if !hasComparison(f, "!= ==", func(v ssa.Value) bool { _, ok := v.(*ssa.Parameter); return ok }, resultOfCall(storeKey)) {
+			continue
+		}
+		found = true
+		evs := []Ev{
+			&calledEv{name: "rules[key] = rule", match: func(x ssa.Instruction) bool {
+				mu, ok := x.(*ssa.MapUpdate)
+				return ok && isLoadOf(mu.Map, rulesMap)
+			}},
+			guardRel("k == r.StoreKey()", "==", func(v ssa.Value) bool { _, ok := v.(*ssa.Parameter); return ok }, resultOfCall(storeKey)),
+			queuedOf("stale key queued for deletion", isString),
+			queuedOf("rule queued for re-saving", isRulePtr),
+		}
+		c.need(rule, f, "return of the load callback with the rule installed", func(x ssa.Instruction) bool { _, ok := x.(*ssa.Return); return ok }, evs,
+			func(h []bool) bool { return !h[0] || h[1] || (h[2] && h[3]) },
+			"a rule stored under a key that is not its canonical key is queued for re-saving under the canonical key and the stale key for deletion")
 	}
 	c.Check(found, rule, "key != r.StoreKey() in "+fnName(load), "a rule stored under a key that is not its canonical key is detected", P.pos(load.Pos()), "")
 	// every SaveRule in the package stores a rule under its own StoreKey
